@@ -14,7 +14,7 @@ import itertools
 import re
 from fractions import Fraction
 
-from common import Stream, budget, rng_for, to_gq, show
+from common import Stream, budget, rng_for, to_gq, show, from_gq, canon_op_json
 
 TRUSTED = [
     'C19: numpy.log2 / math.log(x, 2) / floor / ceil on the generated inputs (eps * n = 2^-k with k <= 28, L/M < 2^40) are exact or decided with margin; the Model uses exact integer arithmetic',
@@ -28,8 +28,8 @@ ASSUMPTIONS = [
 ]
 OPEN_STATEMENTS = [
     'lambda_norm: CLOSED for real symmetric inputs. lambda_norm_spec (Model of lambda_norm = sum of |c| over the non-identity strings of the Model of jordan_wigner(DiagonalCoulombHamiltonian), all real, image acts like the Spec operator), pauli_decomposition_unique (trace orthogonality: the Spec oracle jwOneNorm of any fermionic operator equals the sum of |c| of any canonical Pauli form acting like it) and lambda_norm_oracle (jwOneNorm n (const + sum T a+a + sum V nn) false = some (lambda_norm)) hold for every n; the only hypothesis is the exact-run flag jwDCHOk of the Model transform, evaluated by the driver (c19.spec.dch_pauli_norm) on every generated real Hamiltonian. Hermitian one_body with imaginary entries: correspondence + oracle only (the Model of lambda_norm takes real matrices).',
-    'one_norm_spec (get_one_norm_int(_woconst) = 1-norm of the Jordan-Wigner coefficients for eight-fold symmetric integrals): open as a theorem — pauli_decomposition_unique reduces it to reading off the coefficients of the Model image jwInteractionOp of the spin-orbital Hamiltonian (identity, Z, ZZ, hopping strings with and without an extra / missing Z, four-letter strings, with all index coincidences), which is not done; checked exactly by the Spec oracle jwOneNorm (Pauli decomposition from the Spec ladder action on all Fock states) for n_orb <= 2 (3 on a sample).',
-    'mu minimal: the Model computes the least mu with eps*n*2^mu >= 1 (used by discretize_spec); minimality itself is not stated as a theorem, and the implementation returns mu+1 for eps*n = 2^-k with k in {29, 31, 39, 47, 51, 55, 58, 59, 62} because math.log(x, 2) is inexact there (not a violation of the property; such inputs are not generated).',
+    'one_norm_spec (get_one_norm_int(_woconst) = 1-norm of the Jordan-Wigner coefficients for eight-fold symmetric integrals): open as a theorem — pauli_decomposition_unique reduces it to reading off the coefficients of the Model image jwInteractionOp of the spin-orbital Hamiltonian (identity, Z, ZZ, hopping strings with and without an extra / missing Z, four-letter strings, with all index coincidences), which is not done. PROVED so far (one_norm_identity_coefficient, all integrals, no symmetry): the identity coefficient Tr(H)/4^n of the Spec operator molOp is htilde, and get_one_norm_int = |htilde| + get_one_norm_int_woconst, i.e. _woconst drops exactly the identity term (also evaluated by the driver: c19.spec.identity_coef, c19.spec.mol_op). The non-identity part is checked exactly by the Spec oracle jwOneNorm (Pauli decomposition from the Spec ladder action on all Fock states) for n_orb <= 2 (3 on a sample).',
+    'mu: the Model computes the least mu with eps*n*2^mu >= 1 and that minimality is a theorem (sub_bit_precision_spec); the implementation returns mu+1 for eps*n = 2^-k with k in {29, 31, 39, 47, 51, 55, 58, 59, 62} because math.log(x, 2) is inexact there (not a violation of the property; such inputs are not generated).',
     'cost functions: PROVED beyond total = step x iterations: cost_sparse has a positive per-step cost for all parameters and its total is monotone in lam and 1/dE (sparse_total_monotone); compute_cost: per-step cost independent of lam, dE and total monotone when the per-step cost is non-negative (thc_total_monotone); QR2 / QI2 minimise over ALL k1, k2 >= 1 for table sizes <= 2^16 (qr2_global_minimiser, qi2_global_minimiser; larger tables: searched grid only).',
     'compute_cost / cost_sparse: the number of rotation bits br (arg-min of an arccos/sin expression) and np.pi are outside the theorems (parameters / rational enclosure); the ancilla counts are covered by correspondence only. cost_estimator: no Model (irrational powers); oracle stream on its integer bookkeeping and grid minimality only.',
 ]
@@ -662,6 +662,28 @@ def stream_norms(ctx, of, lcu, gon):
                           {'op': 'c19.spec.jw_norm', 'n': 2 * n, 'operator': terms, 'with_id': True}, exact_eq(xa)))
             orc_w.append(('get_one_norm_int_woconst differs from the 1-norm of the non-identity Jordan-Wigner coefficients',
                           {'op': 'c19.spec.jw_norm', 'n': 2 * n, 'operator': terms, 'with_id': False}, exact_eq(xw)))
+        if n <= 2 or (n == 3 and n3 <= budget(t, 2, 10)):
+            # one_norm_identity_coefficient (no symmetry needed): get_one_norm_int - get_one_norm_int_woconst is the modulus
+            # of the identity coefficient Tr(H) / 4^n of the Spec operator molOp; molOp itself is compared with the
+            # operator built here (mol_terms) as a set of terms
+            def ident_ok(ans, d=xa - xw, n=n):
+                re_, im_ = from_gq(ans)
+                return im_ == 0 and abs(re_) / 4 ** n == d
+            s.count('get_one_norm:identity-coefficient')
+            orc_a.append(('get_one_norm_int - get_one_norm_int_woconst is not the modulus of the identity coefficient of the '
+                          'Pauli decomposition (trace of the Spec operator over all Fock states)',
+                          {'op': 'c19.spec.identity_coef', 'const': fr(const), 'h': hj, 'g': gj}, ident_ok))
+            if n <= 2:
+                want = canon_op_json(enc_ferm(mol_terms(const, h, g)))
+
+                def molop_ok(ans, want=want):
+                    try:
+                        got = [e for e in canon_op_json(ans) if e[1] != (0, 0)]
+                    except Exception:  # noqa: BLE001
+                        return False
+                    return tuple(got) == tuple(e for e in want if e[1] != (0, 0))
+                orc_a.append(('Spec.C19.molOp differs from the operator constant + h a+a + 1/2 g a+a+aa built by the harness',
+                              {'op': 'c19.spec.mol_op', 'const': fr(const), 'h': hj, 'g': gj}, molop_ok))
         b.add(case, fr(xa), {'op': 'c19.one_norm', 'const': fr(const), 'h': hj, 'g': gj, 'woconst': False}, orc_a)
         b.add(dict(case, fn='get_one_norm_int_woconst'), fr(xw), {'op': 'c19.one_norm', 'h': hj, 'g': gj, 'woconst': True}, orc_w)
     for _ in range(budget(t, 200, 1000)):
